@@ -153,14 +153,19 @@ def c06 (steps : List StepObs) (unsubAt : List (Option Nat)) : Option String := 
     (`termAt` marks the steps that call `error` / `complete` on it) -/
 def c10 (steps : List StepObs) (termAt : List Bool) : Option String := Id.run do
   let mut i := 0
+  let mut usersBefore := 0
   for st in steps do
     if st.status == "ok" then
       let held := st.counts.foldl (· + ·) 0
       let live := (st.subs.filter id).length
       if held > live then
         return some s!"the subject holds {held} observers but only {live} subscriptions are live (step {i})"
-      if termAt.getD i false && held > 0 then
+      -- subscribers that arrived DURING the terminal call (from inside a callback) arrived after the
+      -- terminal's broadcast: like any later subscriber of a plain / async subject they are accepted
+      let arrivedDuring := ((st.subs.drop usersBefore).filter id).length
+      if termAt.getD i false && held > arrivedDuring then
         return some s!"the subject still holds an observer right after its terminal (step {i})"
+      usersBefore := st.subs.length
     i := i + 1
   return none
 
